@@ -5,7 +5,9 @@
 patch=$1; shift
 wt=/tmp/mutrepo_$$
 git -C /repo worktree add -q --detach $wt HEAD || exit 2
-( cd $wt && git apply "$patch" ) || { echo "PATCH DOES NOT APPLY"; git -C /repo worktree remove --force $wt; exit 3; }
+( cd $wt && git apply "$patch" ) || { echo "PATCH DOES NOT APPLY"; git -C /repo worktree remove --force $wt
+# the translated Coq files were regenerated from the scratch worktree: regenerate them from /repo
+for g in /verif/tools/gen_*.py; do python3 $g > /dev/null 2>&1; done; exit 3; }
 cd /verif
 for p in "$@"; do
   out=$(VERIF_REPO=$wt VERIF_EVIDENCE_DIR=/verif/.work/mut_evidence VERIF_SEED=${VERIF_SEED:-1} ./check $p --tier quick 2>&1)
@@ -13,3 +15,5 @@ for p in "$@"; do
   echo "$out" | tail -1
 done
 git -C /repo worktree remove --force $wt
+# the translated Coq files were regenerated from the scratch worktree: regenerate them from /repo
+for g in /verif/tools/gen_*.py; do python3 $g > /dev/null 2>&1; done
